@@ -17,8 +17,10 @@ import Gama.Lemmas.G3LinReal
 import Gama.Lemmas.G3LinZenith
 import Gama.Lemmas.G3ParserLemmas
 import Gama.Lemmas.G3Assemble
+import Gama.Lemmas.G3NetLemmas
+import Gama.Lemmas.G3LinAngle
 namespace Gama.Props.C19
-open Gama Gama.Neu Gama.G3Book Gama.AdjXml Gama.G3Lin Gama.Gen.G3Lin Gama.G3Parser
+open Gama Gama.Neu Gama.G3Book Gama.AdjXml Gama.G3Lin Gama.Gen.G3Lin Gama.G3Parser Gama.G3Net
 open Matrix
 
 /-- the rotation `Point::transformation_matrix(b, l)` builds is orthogonal: `Rᵀ R = 1` -/
@@ -196,40 +198,8 @@ theorem C19_consistent_fixed_point (P : Pts ℝ) (o : GObs ℝ) (tol : ℝ) :
        (@hdiff ℝ realTrig P o tol).rhs = [0]) ∧
     (o.v1 = zenithFn P o → (@zenith ℝ realTrig P o tol).rhs = [0]) ∧
     (o.v1 = azimuthFn P o * 200 / Real.pi → (@azimuth ℝ realTrig P o tol).rhs = [0]) ∧
-    (o.v1 = angleFn P o → (@angle ℝ realTrig P o tol).rhs = [0]) := by
-  refine ⟨?_, ?_, ?_, ?_, ?_, ?_, ?_, ?_⟩
-  · intro h1 h2 h3
-    have := congrArg LinOut.rhs (gen_vector_eq P o tol)
-    rw [show (evalLin P (@vector ℝ realTrig P o tol)).rhs = (@vector ℝ realTrig P o tol).rhs from rfl] at this
-    rw [this, h1, h2, h3]
-    simp [linVector, toPt, GPt.Xdh, GPt.Ydh, GPt.Zdh, Pt.Xdh, Pt.Ydh, Pt.Zdh]
-  · intro h1 h2 h3
-    have := congrArg LinOut.rhs (gen_xyz_eq P o tol)
-    rw [show (evalLin P (@xyz ℝ realTrig P o tol)).rhs = (@xyz ℝ realTrig P o tol).rhs from rfl] at this
-    rw [this, h1, h2, h3]
-    simp [linXYZ, toPt]
-  · intro h1
-    have := congrArg LinOut.rhs (gen_distance_eq P o tol)
-    rw [show (evalLin P (@distance ℝ realTrig P o tol)).rhs = (@distance ℝ realTrig P o tol).rhs from rfl] at this
-    rw [this, linDistance_rhs, h1, distanceFn]
-    simp
-  · intro h1
-    have := congrArg LinOut.rhs (gen_height_eq P o tol)
-    rw [show (evalLin P (@height ℝ realTrig P o tol)).rhs = (@height ℝ realTrig P o tol).rhs from rfl] at this
-    rw [this, h1]
-    simp [linHeight, toPt, GPt.modelHeight, Pt.modelHeight]
-  · intro h1
-    have := congrArg LinOut.rhs (gen_hdiff_eq P o tol)
-    rw [show (evalLin P (@hdiff ℝ realTrig P o tol)).rhs = (@hdiff ℝ realTrig P o tol).rhs from rfl] at this
-    rw [this, h1]
-    simp [linHeightDiff, toPt, GPt.modelHeight, Pt.modelHeight]
-  · intro h1; rw [zenith_rhs, h1]; simp
-  · intro h1
-    rw [azimuth_rhs, h1]
-    have : Real.pi ≠ 0 := Real.pi_ne_zero
-    field_simp
-    simp
-  · intro h1; rw [angle_rhs, h1]; simp
+    (o.v1 = angleFn P o → (@angle ℝ realTrig P o tol).rhs = [0]) :=
+  consistent_fixed_point P o tol
 
 /-- non-vacuity: a vector observed between two points of the frame at (0, 0) -/
 example :
@@ -436,5 +406,254 @@ example :
     .ok [⟨.angle, (), [(.fromDh, 0), (.leftDh, 3), (.rightDh, 4)]⟩,
          ⟨.angle, (), [(.fromDh, 0), (.leftDh, 0), (.rightDh, 0)]⟩] := by
   rfl
+
+/-! ## Round 3b — the network level: indices, record order, derivatives of the angular rows, reported results -/
+
+/-- **`Model::update_index` and the linearisation meet in the same `Parameter` objects.**  For every observation and
+    role, the column index the generated linearisation reads from the point of that role (`Parameter::index()` on the
+    point `points->find(name)`, whose members `ind` are what `Model::update_index` stored: `ptsOf net idx.ind`) is the
+    index of the book (`Idx.index`, the subject of `C19_index_bijective` / `C19_order_independent`) for the parameter
+    (name, component); a role the observation does not have reads 0.  This was a hypothesis of `C19_rows_symbolic`. -/
+theorem C19_update_index_is_book {ι K : Type} [DecidableEq ι] [Scalar K] (net : Net ι K) (idx : Idx ι) (ob : Obs ι)
+    (r : Role) (c : Comp) :
+    (ptsOf net idx.ind ob r).index c =
+      match roleName ob r with
+      | some n => idx.index (isFreePar net.points) (n, c)
+      | none => 0 :=
+  ptsOf_index net idx ob r c
+
+/-- **any order of the input records** (no hypothesis besides `nobs₁ ~ nobs₂`).  `net` the point table, `nobs₁`, `nobs₂`
+    the same observation records in two orders.  `netEqsR net nobs` = the project equations `Model::update_linearization`
+    assembles (loop over `active_obs`, generated linearisations, indices of `update_index`), `designOf` / `rhsOf` their
+    design matrix and right-hand side.  Then: same `dm_cols`, same `dm_rows`; there are an explicit renumbering `e` of the
+    columns — `index₂ = renum e ∘ index₁` for every parameter — and an explicit bijection `ρ` of the rows, derived from
+    the permutation of the active-observation lists, with `A₂ = A₁.submatrix ρ e⁻¹`, `b₂ = b₁ ∘ ρ`, equal rank (hence
+    equal defect and redundancy, `C19_redundancy_rank`); every least-squares solution `(x, v, Φ)` of the first problem
+    — whichever algorithm produced it (C01: each returns an `IsLSSolution`), any weight matrix `W` attached to the
+    observations, any regularisation set `S` — is the solution of the second after renumbering (LS5): same `Φ`,
+    residuals per observation (`v ∘ ρ`), and the same correction for every parameter, hence the same reported
+    `dn de du` and adjusted `X Y Z` of every point. -/
+theorem C19_record_order_independent {ι : Type} [DecidableEq ι] (net : Net ι ℝ) {nobs₁ nobs₂ : List (NObs ι ℝ)}
+    (h : nobs₁.Perm nobs₂) :
+    (bookOf net nobs₁).idx.cols = (bookOf net nobs₂).idx.cols ∧ (bookOf net nobs₁).rows = (bookOf net nobs₂).rows ∧
+    ∃ (e : Fin (bookOf net nobs₁).idx.cols ≃ Fin (bookOf net nobs₁).idx.cols)
+      (ρ : Fin (netEqsR net nobs₂).length ≃ Fin (netEqsR net nobs₁).length),
+      (∀ q, (bookOf net nobs₂).idx.index (isFreePar net.points) q =
+        renum e ((bookOf net nobs₁).idx.index (isFreePar net.points) q)) ∧
+      designOf (bookOf net nobs₁).idx.cols (netEqsR net nobs₂) =
+        (designOf (bookOf net nobs₁).idx.cols (netEqsR net nobs₁)).submatrix ρ e.symm ∧
+      rhsOf (netEqsR net nobs₂) = rhsOf (netEqsR net nobs₁) ∘ ρ ∧
+      (designOf (bookOf net nobs₁).idx.cols (netEqsR net nobs₂)).rank =
+        (designOf (bookOf net nobs₁).idx.cols (netEqsR net nobs₁)).rank ∧
+      (∀ (W : Matrix (Fin (netEqsR net nobs₁).length) (Fin (netEqsR net nobs₁).length) ℝ)
+          (S : Finset (Fin (bookOf net nobs₁).idx.cols)) (x : Fin (bookOf net nobs₁).idx.cols → ℝ)
+          (v : Fin (netEqsR net nobs₁).length → ℝ) (rtr : ℝ),
+        LS.IsLSSolution (designOf _ (netEqsR net nobs₁)) (rhsOf (netEqsR net nobs₁)) W S x v rtr →
+        LS.IsLSSolution (designOf _ (netEqsR net nobs₂)) (rhsOf (netEqsR net nobs₂)) (W.submatrix ρ ρ)
+          (S.map e.toEmbedding) (x ∘ e.symm) (v ∘ ρ) rtr) ∧
+      (∀ (x : Fin (bookOf net nobs₁).idx.cols → ℝ) (n : ι) (c : Comp),
+        neuCorr net.points (bookOf net nobs₂) (vecAt (x ∘ e.symm)) n c =
+          neuCorr net.points (bookOf net nobs₁) (vecAt x) n c) := by
+  obtain ⟨hc, hr, e, ρ, he, hm, hb, hrk, hls⟩ := record_order_independent net h
+  refine ⟨hc, hr, e, ρ, he, hm, hb, hrk, hls, fun x n c => ?_⟩
+  exact neuCorr_renumber net.points _ _ (final_inv net.points _).1 e he x n c
+
+/-- non-vacuity of `C19_record_order_independent` and of the index theorem: two free points observed from a fixed
+    one, the two records swapped: the indices the linearisation reads for the second vector's target are 4 5 6 in one
+    order and 1 2 3 in the other -/
+example :
+    let pt : NPt ℚ := ⟨0, 0, 0, 0, 0, 0, 0, 0, 0, 0, 0, 0, ⟨0, 0, 1, 0, 1, 0, 1, 0, 0⟩, ⟨true, false, false, .free, .free, .free⟩⟩
+    let fx : NPt ℚ := { pt with s := ⟨true, false, false, .fixed, .fixed, .fixed⟩ }
+    let net : Net Nat ℚ := ⟨fun n => if n = 0 then some fx else if n ≤ 2 then some pt else none, 1000⟩
+    let o₁ : List (Obs Nat) := [.vector 0 1, .vector 0 2]
+    let o₂ : List (Obs Nat) := [.vector 0 2, .vector 0 1]
+    ((ptsOf net (updateObservations net.points o₁).idx.ind (.vector 0 2) .to).index .N,
+     (ptsOf net (updateObservations net.points o₂).idx.ind (.vector 0 2) .to).index .N,
+     (ptsOf net (updateObservations net.points o₁).idx.ind (.vector 0 2) .frm).index .N) = (4, 1, 0) := by
+  decide
+
+/-- **the angle coefficients are derivatives** (was: numerically only).  Station, left and right target are displaced by
+    `t·ξf`, `t·ξl`, `t·ξr`, each in its own n-e-u frame.  There are differentiable direction angles `θl`, `θr` of the
+    horizontal parts of station → left / right target in the station's frame along this motion (`Lin.IsPolarAngle`, C05's
+    polar lift), starting at the code's `atan2` values as bearings, and the derivative of
+    `Angular().scale()/Linear().scale() · (θr − θl)` at `t = 0` is the generated row applied to `(ξf, ξl, ξr)`:
+    `cF·ξf + cL·ξl + cR·ξr` with the nine coefficients of the row.  Hypotheses: neither target in the station's vertical.
+    The angle is formed from the initial coordinates in the station's geodetic frame, as the coefficients are
+    (the right-hand side additionally uses instrument / target heights and the deflection of the vertical: second order).
+    A sign change of `Lcoef` / `Rcoef` (finding G3 of round 1, mutation c2 of round 3) breaks this proof. -/
+theorem C19_coeff_is_derivative_angle (P : Pts ℝ) (o : GObs ℝ) (tol : ℝ) (ξf ξl ξr : E3 ℝ)
+    (hl : (aLocal P .left).e1 * (aLocal P .left).e1 + (aLocal P .left).e2 * (aLocal P .left).e2 ≠ 0)
+    (hr : (aLocal P .right).e1 * (aLocal P .right).e1 + (aLocal P .right).e2 * (aLocal P .right).e2 ≠ 0) :
+    ∃ cF cL cR : E3 ℝ,
+      (@angle ℝ realTrig P o tol).rows =
+        [[⟨[(.frm, .freeN)], [⟨.frm, .N, cF.e1⟩]⟩, ⟨[(.frm, .freeE)], [⟨.frm, .E, cF.e2⟩]⟩,
+          ⟨[(.frm, .freeU)], [⟨.frm, .U, cF.e3⟩]⟩,
+          ⟨[(.left, .freeN)], [⟨.left, .N, cL.e1⟩]⟩, ⟨[(.left, .freeE)], [⟨.left, .E, cL.e2⟩]⟩,
+          ⟨[(.left, .freeU)], [⟨.left, .U, cL.e3⟩]⟩,
+          ⟨[(.right, .freeN)], [⟨.right, .N, cR.e1⟩]⟩, ⟨[(.right, .freeE)], [⟨.right, .E, cR.e2⟩]⟩,
+          ⟨[(.right, .freeU)], [⟨.right, .U, cR.e3⟩]⟩]] ∧
+      ∃ θl θr : ℝ → ℝ,
+        θl 0 = Gama.Lin.brg (aLocal P .left).e1 (aLocal P .left).e2 ∧
+        θr 0 = Gama.Lin.brg (aLocal P .right).e1 (aLocal P .right).e2 ∧
+        (∀ t, Gama.Lin.IsPolarAngle
+          ((aLocal P .left).e1 + (relDisp (frameOf (P .frm)) (frameOf (P .left)) ξf ξl).e1 * t)
+          ((aLocal P .left).e2 + (relDisp (frameOf (P .frm)) (frameOf (P .left)) ξf ξl).e2 * t) (θl t)) ∧
+        (∀ t, Gama.Lin.IsPolarAngle
+          ((aLocal P .right).e1 + (relDisp (frameOf (P .frm)) (frameOf (P .right)) ξf ξr).e1 * t)
+          ((aLocal P .right).e2 + (relDisp (frameOf (P .frm)) (frameOf (P .right)) ξf ξr).e2 * t) (θr t)) ∧
+        HasDerivAt (fun t => angPerLin * (θr t - θl t)) (angleRowDot cF cL cR ξf ξl ξr) 0 :=
+  angle_is_derivative P o tol ξf ξl ξr hl hr
+
+/-- non-vacuity: station at the origin of the frame (0, 0), left target 10 m north (Z), right target 10 m east (Y) -/
+example :
+    let mk (x y z : ℝ) : GPt ℝ := ⟨x, y, z, x, y, z, 0, 0, 0, 0, 0, 0, frame 0 0, .free, .free, .free, 1, 2, 3⟩
+    let P : Pts ℝ := fun r => if r = .left then mk 0 0 10 else if r = .right then mk 0 10 0 else mk 0 0 0
+    (aLocal P .left).e1 * (aLocal P .left).e1 + (aLocal P .left).e2 * (aLocal P .left).e2 ≠ 0 ∧
+    (aLocal P .right).e1 * (aLocal P .right).e1 + (aLocal P .right).e2 * (aLocal P .right).e2 ≠ 0 := by
+  simp [aLocal, frameOf, E3.inverse, frame_eq]
+
+/-- **zenith angle, complete** (finishes `C19_coeff_is_derivative_zenith_partial`): station and target displaced by
+    `t·ξf`, `t·ξt`, each in its own n-e-u frame; the line of sight in the station's frame is then `l + t·δ`,
+    `δ = R_fᵀ(R_t ξt − R_f ξf)`; the derivative of `scale · zen (l + t δ)` at 0 is the generated row applied to
+    `(ξf, ξt)` — including the target's coefficients `R_tᵀ(−R_f pd)` — and `zen l` is the zenith angle the right-hand side
+    compares the observation with (`zenithFn`, station without deflection of the vertical).  Non-vertical sight. -/
+theorem C19_coeff_is_derivative_zenith (P : Pts ℝ) (o : GObs ℝ) (tol : ℝ) (ξf ξt : E3 ℝ)
+    (h : (zLocal P o).e1 * (zLocal P o).e1 + (zLocal P o).e2 * (zLocal P o).e2 ≠ 0) :
+    (∃ cF cT : E3 ℝ,
+      (@zenith ℝ realTrig P o tol).rows =
+        [[⟨[(.frm, .freeH)], [⟨.frm, .N, cF.e1⟩, ⟨.frm, .E, cF.e2⟩]⟩, ⟨[(.frm, .freeU)], [⟨.frm, .U, cF.e3⟩]⟩,
+          ⟨[(.to, .freeH)], [⟨.to, .N, cT.e1⟩, ⟨.to, .E, cT.e2⟩]⟩, ⟨[(.to, .freeU)], [⟨.to, .U, cT.e3⟩]⟩]] ∧
+      HasDerivAt (fun t => angPerLin * zen
+          ((zLocal P o).e1 + (relDisp (frameOf (P .frm)) (frameOf (P .to)) ξf ξt).e1 * t)
+          ((zLocal P o).e2 + (relDisp (frameOf (P .frm)) (frameOf (P .to)) ξf ξt).e2 * t)
+          ((zLocal P o).e3 + (relDisp (frameOf (P .frm)) (frameOf (P .to)) ξf ξt).e3 * t))
+        (edot cF ξf + edot cT ξt) 0) ∧
+    ((P .frm).dB = 0 → (P .frm).dL = 0 → zenithFn P o = zen (zLocal P o).e1 (zLocal P o).e2 (zLocal P o).e3) :=
+  ⟨zenith_is_derivative P o tol ξf ξt h, zenithFn_eq_zen P o⟩
+
+/-- **vector rows are ECEF coordinate differences** (the content behind `C19_vector_cov_unrotated`).  For every vector
+    of unknowns `x` [mm]: the three generated rows applied to `x` are the ECEF components of
+    `R_to·(n,e,u)_to − R_from·(n,e,u)_from` (`dispXYZ p x = R_p · (x_N, x_E, x_U)`, components that are not adjusted
+    contribute 0), so the residuals `A x − b` of these three rows are, component by component,
+    `1000 · ((to' − from') − observed)` with `to' = to + R_to·(n,e,u)_to/1000` the adjusted position: the residual
+    vector is the ECEF difference "adjusted vector − observed vector" in millimetres.  Its covariance is therefore the
+    3×3 ECEF covariance of the observed vector as given in the input; no rotation of the covariance is needed
+    (only the unknowns live in the local frames). -/
+theorem C19_vector_rows_are_ecef (P : Pts ℝ) (o : GObs ℝ) (tol : ℝ) (x : ℕ → ℝ) :
+    List.zipWith (· - ·)
+      ((evalLin P (@vector ℝ realTrig P o tol)).rows.map (fun r => @rowDot ℝ realScalar r x))
+      (evalLin P (@vector ℝ realTrig P o tol)).rhs =
+    [ 1000 * ((@GPt.Xdh ℝ realScalar (P .to) o.toDh + (dispXYZ (toPt (P .to)) x).1 / 1000) -
+              (@GPt.Xdh ℝ realScalar (P .frm) o.fromDh + (dispXYZ (toPt (P .frm)) x).1 / 1000) - o.v1),
+      1000 * ((@GPt.Ydh ℝ realScalar (P .to) o.toDh + (dispXYZ (toPt (P .to)) x).2.1 / 1000) -
+              (@GPt.Ydh ℝ realScalar (P .frm) o.fromDh + (dispXYZ (toPt (P .frm)) x).2.1 / 1000) - o.v2),
+      1000 * ((@GPt.Zdh ℝ realScalar (P .to) o.toDh + (dispXYZ (toPt (P .to)) x).2.2 / 1000) -
+              (@GPt.Zdh ℝ realScalar (P .frm) o.fromDh + (dispXYZ (toPt (P .frm)) x).2.2 / 1000) - o.v3) ] := by
+  rw [C19_coeff_is_derivative_vector P o tol x]
+  have hr : (evalLin P (@vector ℝ realTrig P o tol)).rhs =
+      [(o.v1 - (@GPt.Xdh ℝ realScalar (P .to) o.toDh - @GPt.Xdh ℝ realScalar (P .frm) o.fromDh)) * 1000,
+       (o.v2 - (@GPt.Ydh ℝ realScalar (P .to) o.toDh - @GPt.Ydh ℝ realScalar (P .frm) o.fromDh)) * 1000,
+       (o.v3 - (@GPt.Zdh ℝ realScalar (P .to) o.toDh - @GPt.Zdh ℝ realScalar (P .frm) o.fromDh)) * 1000] := by
+    rw [gen_vector_eq]
+    simp [linVector, linScale_real, toPt, GPt.Xdh, GPt.Ydh, GPt.Zdh, Pt.Xdh, Pt.Ydh, Pt.Zdh]
+  rw [hr]
+  simp only [List.zipWith_cons_cons, List.zipWith_nil_right]
+  refine congrArg₂ _ (by ring) (congrArg₂ _ (by ring) (congrArg₂ _ (by ring) rfl))
+
+/-- **what gama-g3 reports for a point** (`Model::update_adjustment` + `Point::write_xml`, corrections 0 before the
+    adjustment): the printed `dn de du` [mm] are the unknowns `adj->x()(index)` of the point's adjusted components
+    (0 for a component without a column), the correction of the linked parameter `height` is that of `U` (0 — nothing
+    is read from the solution vector — when `U` has no column: the repaired code, finding G8), and the adjusted
+    coordinates are `X' = X₀ + R·(dn, de, du)/1000` with `R` the point's own n-e-u frame — every parameter of `par_list`
+    corrected exactly once -/
+theorem C19_adjusted_xyz_from_neu {ι : Type} [DecidableEq ι] (net : Net ι ℝ) (nobs : List (NObs ι ℝ)) (a : AdjOut ℝ)
+    (var : ℝ) (n : ι) (g : NPt ℝ) (hg : net.pts n = some g) :
+    ∃ out, reportR net (bookOf net nobs) a var n = some out ∧
+      out.dn = neuCorr net.points (bookOf net nobs) a.x n .N * 1000 ∧
+      out.de = neuCorr net.points (bookOf net nobs) a.x n .E * 1000 ∧
+      out.du = neuCorr net.points (bookOf net nobs) a.x n .U * 1000 ∧
+      out.dh = neuCorr net.points (bookOf net nobs) a.x n .U ∧
+      out.ax = g.X0 + (g.R.r11 * neuCorr net.points (bookOf net nobs) a.x n .N +
+        g.R.r12 * neuCorr net.points (bookOf net nobs) a.x n .E + g.R.r13 * neuCorr net.points (bookOf net nobs) a.x n .U) ∧
+      out.ay = g.Y0 + (g.R.r21 * neuCorr net.points (bookOf net nobs) a.x n .N +
+        g.R.r22 * neuCorr net.points (bookOf net nobs) a.x n .E + g.R.r23 * neuCorr net.points (bookOf net nobs) a.x n .U) ∧
+      out.az = g.Z0 + (g.R.r31 * neuCorr net.points (bookOf net nobs) a.x n .N +
+        g.R.r32 * neuCorr net.points (bookOf net nobs) a.x n .E + g.R.r33 * neuCorr net.points (bookOf net nobs) a.x n .U) :=
+  reportR_eq net nobs a var n g hg
+
+/-- **a consistent network is reproduced** — "returns adjusted coordinates equal to the generating ones" as a theorem.
+    Hypotheses: (i) the approximate coordinates are the generating ones: every active observation equals its
+    observation function at the coordinates the linearisation reads (`ConsistentAt`, all eight types); (ii) the weight
+    matrix is positive definite; (iii) the regularisation set `S` (the constrained parameters, `minx`) resolves the
+    defect of the design matrix (C01's uniqueness condition; automatic for a network of full column rank).
+    Then for every least-squares solution in the sense of `IsLSSolution` — whichever of the four algorithms produced it
+    (C01) — `x = 0`, all residuals are 0, `Φ = 0`, and every point is reported with `dn = de = du = 0` and adjusted
+    `X Y Z` equal to its generating coordinates. -/
+theorem C19_consistent_network_reproduced {ι : Type} [DecidableEq ι] (net : Net ι ℝ) (nobs : List (NObs ι ℝ))
+    (hcons : ∀ no ∈ activeOf net nobs, ConsistentAt (ptsOfR net (bookOf net nobs).idx.ind no.obs) no.obs no.o)
+    (W : Matrix (Fin (netEqsR net nobs).length) (Fin (netEqsR net nobs).length) ℝ)
+    (hpd : ∀ d, d ≠ 0 → 0 < d ⬝ᵥ W *ᵥ d) (S : Finset (Fin (bookOf net nobs).idx.cols))
+    (hS : LS.Resolves (designOf (bookOf net nobs).idx.cols (netEqsR net nobs)) S)
+    (x : Fin (bookOf net nobs).idx.cols → ℝ) (v : Fin (netEqsR net nobs).length → ℝ) (rtr : ℝ)
+    (hsol : LS.IsLSSolution (designOf _ (netEqsR net nobs)) (rhsOf (netEqsR net nobs)) W S x v rtr) :
+    x = 0 ∧ v = 0 ∧ rtr = 0 ∧
+    ∀ (qxx : Nat → Nat → ℝ) (defect : Nat) (var : ℝ) (n : ι) (g : NPt ℝ), net.pts n = some g →
+      ∃ out, reportR net (bookOf net nobs) ⟨vecAt x, defect, rtr, qxx⟩ var n = some out ∧
+        out.dn = 0 ∧ out.de = 0 ∧ out.du = 0 ∧ out.ax = g.X0 ∧ out.ay = g.Y0 ∧ out.az = g.Z0 := by
+  rw [rhsOf_zero_of_consistent net nobs hcons] at hsol
+  obtain ⟨hx, hv, hr⟩ := ls_zero _ W hpd S hS hsol
+  refine ⟨hx, hv, hr, fun qxx defect var n g hg => ?_⟩
+  obtain ⟨out, ho, h1, h2, h3, _, h4, h5, h6⟩ := reportR_eq net nobs ⟨vecAt x, defect, rtr, qxx⟩ var n g hg
+  have hz : ∀ c, neuCorr net.points (bookOf net nobs) (vecAt x) n c = 0 := by
+    intro c
+    unfold neuCorr vecAt
+    rw [hx]
+    split_ifs <;> simp
+  refine ⟨out, ho, ?_, ?_, ?_, ?_, ?_, ?_⟩
+  · rw [h1, hz]; simp
+  · rw [h2, hz]; simp
+  · rw [h3, hz]; simp
+  · rw [h4, hz, hz, hz]; simp
+  · rw [h5, hz, hz, hz]; simp
+  · rw [h6, hz, hz, hz]; simp
+
+/-- **one linearisation step from nearby**: if every project equation is satisfied exactly by the unknowns `ξ`
+    (observations that are linear in the unknowns and consistent with the coordinates displaced by `ξ` — for vectors and
+    observed coordinates this is `C19_vector_one_step` / `C19_xyz_one_step`, any displacement within `tol_abs`), the
+    weight matrix is positive definite and the design matrix has full column rank, then every least-squares solution is
+    `x = ξ` with zero residuals, and the reported coordinates are `X₀ + R·ξ_point/1000` — the generating ones.
+    (Distances and angles are not linear: for them this holds up to second order, which the end-to-end oracle bounds.) -/
+theorem C19_one_step_network_reproduced {ι : Type} [DecidableEq ι] (net : Net ι ℝ) (nobs : List (NObs ι ℝ))
+    (ξ : Fin (bookOf net nobs).idx.cols → ℝ)
+    (hlin : ∀ p ∈ netEqsR net nobs, p.2 = @rowDot ℝ realScalar p.1 (vecAt ξ))
+    (W : Matrix (Fin (netEqsR net nobs).length) (Fin (netEqsR net nobs).length) ℝ)
+    (hpd : ∀ d, d ≠ 0 → 0 < d ⬝ᵥ W *ᵥ d) (S : Finset (Fin (bookOf net nobs).idx.cols))
+    (hker : ∀ g, designOf (bookOf net nobs).idx.cols (netEqsR net nobs) *ᵥ g = 0 → g = 0)
+    (x : Fin (bookOf net nobs).idx.cols → ℝ) (v : Fin (netEqsR net nobs).length → ℝ) (rtr : ℝ)
+    (hsol : LS.IsLSSolution (designOf _ (netEqsR net nobs)) (rhsOf (netEqsR net nobs)) W S x v rtr) :
+    x = ξ ∧ v = 0 ∧ rtr = 0 := by
+  rw [rhsOf_eq_mulVec (netEqsR net nobs) ξ hlin] at hsol
+  exact ls_one_step _ W hpd S hker ξ hsol
+
+/-- non-vacuity of the two solution theorems: the zero solution of a consistent problem exists for every design
+    matrix, and full column rank makes every regularisation set resolving -/
+example {m n : Nat} (A : Matrix (Fin m) (Fin n) ℝ) (W : Matrix (Fin m) (Fin m) ℝ) (S : Finset (Fin n)) :
+    LS.IsLSSolution A 0 W S 0 0 0 ∧ ((∀ g, A *ᵥ g = 0 → g = 0) → LS.Resolves A S) :=
+  ⟨⟨by simp, by simp, by simp, by simp⟩, fun h => LS.resolves_of_ker_trivial h S⟩
+
+/-- **`precision(p)` printing as a printer.**  If `operator<<` / `istringstream >>` on doubles decompose into rounding
+    to a `p`-digit decimal numeral `D`, exact rendering / parsing, and rounding to the nearest double `N`, with
+    `D (N (D x)) = D x` (re-printing what was read gives the same numeral — `DecimalStream`, whose docstring says why this
+    holds for IEEE doubles and every `p`, and that for `p = 17` even `N (D x) = x`), then the codec is a `Codec.Printer`
+    for the projection `q = N ∘ D`, so `C19_dump_roundtrip` applies to gama-g3's `precision(16)` dump: re-reading gives
+    the data rounded to 16 digits, a second dump is identical.  With `N (D x) = x` (17 digits) it is exact. -/
+theorem C19_printer_of_decimal_stream {K S Dec : Type} (c : Codec K S) (D : K → Dec) (N : Dec → K) (shw : Dec → S)
+    (h : DecimalStream c D N shw) :
+    c.Printer (N ∘ D) ∧ (∀ x, (N ∘ D) ((N ∘ D) x) = (N ∘ D) x) ∧ ((∀ x, N (D x) = x) → c.Lawful) :=
+  ⟨h.printer.1, h.printer.2, h.exact⟩
+
+/-- non-vacuity: the three-decimal printer is such a stream, and it is not exact -/
+example : DecimalStream decCodec (fun n => (n + 9) / 10) (· * 10) Nat.repr ∧ ((· * 10) ∘ fun n => (n + 9) / 10) 10004 ≠ 10004 :=
+  ⟨decCodec_stream, by decide⟩
 
 end Gama.Props.C19
